@@ -107,29 +107,36 @@ Proof.
 Qed.
 
 (** the implied cells of a valid sequence are those computed from the image *)
-Lemma img_cell_impl q t f :
-  valid_b (code_sem fb) q = true -> t < T fb -> f < nf fb -> isact fb f = false ->
-  get_cell q f t = cell_impl fb (img q) t f.
+Lemma img_cell_impl q : valid_b (code_sem fb) q = true ->
+  forall f t, t < T fb -> f < nf fb -> isact fb f = false -> get_cell q f t = cell_impl fb (img q) t f.
 Proof.
-  intros Hv Ht Hf Hn. pose proof (valid_is_shape q Hv) as Hs.
+  intros Hv f. induction f as [f IHf] using lt_wf_ind. intros t Ht Hf Hn. pose proof (valid_is_shape q Hv) as Hs.
   destruct (implied_facts fb HF1 HT f Hf Hn) as (fd & w & Efd & Ew & Hd & W1 & W2 & Htot).
   pose proof Hs as (_ & R & C & _).
   pose proof (impl_sustain fb HF1 HT f Hf Hn) as Hsu.
   pose proof (proj1 (factor_ok_impl fb HT q f fd w Efd Ew Hsu (R f Hf)) (valid_factor_ok q f fd Hv Efd) t Ht) as Hok.
-  unfold cell_impl, factor_at. rewrite Efd, Ew.
+  (* the cells of the dependencies of q are those of the image *)
+  assert (Hdeps : forall d t', dep_ok fb f d = true -> t' <= t -> get_cell q d t' = cell_of fb (img q) t' d).
+  { intros d t' Hdok Ht'. unfold cell_of. destruct (dep_ok_cases fb f d Hn Hdok) as [Hsd|(Hda & Hlt & _)].
+    - destruct (sact_lappl fb HF1 d t' Hsd) as [Hda _]. rewrite Hda. symmetry. apply (img_cell_act q t' d Hs ltac:(lia) Hda).
+    - rewrite Hda. apply IHf; [exact Hlt|lia|lia|exact Hda]. }
+  rewrite <- (cell_impl_char fb HF1 HT (img q) q t f Hf Hn Ht Hdeps).
+  unfold impl_cell, factor_at. rewrite Efd, Ew.
   destruct (get_cell q f t) as [l0|] eqn:El0.
   - destruct Hok as (Hap & Hl0 & Hacc). rewrite Hap.
-    assert (Ew' : window_args q (code_factor fb f fd) (dwin fd w) t
-                  = window_args (dec_act fb (img q)) (code_factor fb f fd) (dwin fd w) t).
-    { apply (window_ext_su1 fb HF1 HT _ _ f fd w t Hsu Ew). intros d t' Hdd Ht'.
-      pose proof (proj1 (Forall_forall _ _) Hd d Hdd) as Hds. cbv beta in Hds.
-      destruct (sact_lappl fb HF1 d t' Hds) as [Hda _].
-      rewrite (dec_act_cell fb _ t' d ltac:(lia) (f1_act_lt fb HF1 d Hda)).
-      symmetry. apply (img_cell_act q t' d Hs ltac:(lia) Hda). }
-    rewrite <- Ew'. symmetry. apply (find_only fb HF1 HT); [|exact Hl0|exact Hacc].
+    symmetry. apply (find_only fb HF1 HT); [|exact Hl0|exact Hacc].
     destruct (window_in_su1 fb HF1 HT q f fd w t Hsu Hap Ew W1) as (k & Hk & Hin).
-    { intros d t' Hdd Ht'. pose proof (proj1 (Forall_forall _ _) Hd d Hdd) as Hds. cbv beta in Hds.
-      destruct (sact_lappl fb HF1 d t' Hds) as [Hda Hdl]. exact (C t' d ltac:(lia) Hda Hdl). }
+    { intros d t' Hdd Ht'. pose proof (proj1 (Forall_forall _ _) Hd d Hdd) as Hdok. cbv beta in Hdok.
+      destruct (dep_ok_cases fb f d Hn Hdok) as [Hsd|(Hda & Hlt & Hal)].
+      - destruct (sact_lappl fb HF1 d t' Hsd) as [Hda Hdl]. exact (C t' d ltac:(lia) Hda Hdl).
+      - (* an implied dependency that has a level in every trial: its cell is a level by validity *)
+        pose proof (dep_lt fb HF1 HT f d Hf Hn Hdok) as Hdn.
+        destruct (implied_facts fb HF1 HT d Hdn Hda) as (fdd & wd & Efdd & Ewd & _).
+        pose proof (proj1 (factor_ok_impl fb HT q d fdd wd Efdd Ewd (impl_sustain fb HF1 HT d Hdn Hda) (R d Hdn))
+                          (valid_factor_ok q d fdd Hv Efdd) t' ltac:(lia)) as Hokd.
+        destruct (get_cell q d t') as [x|] eqn:Ex.
+        + destruct Hokd as (_ & Hx & _). now exists x.
+        + exfalso. pose proof (Hal t') as Happl. unfold appl, factor_at in Happl. rewrite Efdd in Happl. congruence. }
     exact (Htot k _ Hk Hin).
   - now rewrite Hok.
 Qed.
@@ -139,7 +146,7 @@ Proof.
   intros Hv. destruct (valid_shape q Hv) as (A & B & C & D). split; [exact A|]. split; [exact B|]. split; [exact C|].
   split; [|split; [|exact D]].
   - intros t f l Ht Hf Hap Hl. now apply img_bit.
-  - intros t f Ht Hf Hn. now apply img_cell_impl.
+  - intros t f Ht Hf Hn. now apply (img_cell_impl q Hv).
 Qed.
 
 (** two one-hot images of the same sequence agree on the grid *)
